@@ -14,6 +14,7 @@ import (
 	"time"
 
 	"github.com/creachadair/jrpc2/channel"
+	"github.com/creachadair/jrpc2/internal/vhook"
 	"github.com/creachadair/mds/queue"
 	"golang.org/x/sync/semaphore"
 )
@@ -142,6 +143,7 @@ func (s *Server) Start(c channel.Channel) *Server {
 	// goroutine to s.wg. At server shutdown, s.wg completes when the
 	// maintenance goroutines and all pending requests are finished.
 	s.wg.Add(2)
+	vhook.Event("srv.start", s)
 
 	// Accept requests from the client and enqueue them for processing.
 	go func() { defer s.wg.Done(); s.read(c) }()
@@ -196,19 +198,23 @@ func (s *Server) signal() {
 //
 // The caller must invoke the returned function to complete the request.
 func (s *Server) nextRequest() (func() error, error) {
+	vhook.Point("srv.next.lock", s)
 	s.mu.Lock()
 	defer s.mu.Unlock()
 	for s.ch != nil && s.inq.IsEmpty() {
 		s.mu.Unlock()
 		<-s.work
+		vhook.Point("srv.next.relock", s)
 		s.mu.Lock()
 	}
 	if s.ch == nil && s.inq.IsEmpty() {
+		vhook.Event("srv.dispatcher.exit", s)
 		return nil, s.err
 	}
 	ch := s.ch // capture
 
 	next, _ := s.inq.Pop()
+	vhook.Event("srv.dequeue", s, len(next), s.inq.Len(), ch != nil)
 	s.log("Dequeued request batch of length %d (qlen=%d)", len(next), s.inq.Len())
 
 	// Construct a dispatcher to run the handlers outside the lock.
@@ -225,8 +231,10 @@ func (s *Server) nextRequest() (func() error, error) {
 func (s *Server) waitForBarrier(n int) {
 	s.mu.Unlock()
 	defer s.mu.Lock()
+	vhook.Point("srv.barrier.wait", s, n)
 	s.nbar.Wait()
 	s.nbar.Add(n)
+	vhook.Event("srv.barrier.pass", s, n)
 }
 
 // dispatchLocked constructs a function that invokes each of the specified
@@ -288,6 +296,7 @@ func (s *Server) deliver(rsps jmessages, ch sender, elapsed time.Duration) error
 		return nil // the server stopped before this batch was dispatched
 	}
 	s.log("Completed %d requests [%v elapsed]", len(rsps), elapsed)
+	vhook.Point("srv.deliver.lock", s, len(rsps))
 	s.mu.Lock()
 	defer s.mu.Unlock()
 
@@ -300,6 +309,7 @@ func (s *Server) deliver(rsps jmessages, ch sender, elapsed time.Duration) error
 		}
 	}
 
+	vhook.Event("srv.deliver", s, len(rsps))
 	nw, err := encode(ch, rsps)
 	bytesWrittenCount.Add(int64(nw))
 	return err
@@ -358,6 +368,7 @@ func (s *Server) checkAndAssignLocked(next jmessages) tasks {
 				t.hreq.method, string(t.hreq.params), t.err)
 			rpcErrorsCount.Add(1)
 		}
+		vhook.Event("srv.assign", s, id, t.hreq.method, t.err)
 	}
 	return ts
 }
@@ -380,13 +391,17 @@ func (s *Server) setContext(t *task, id string) {
 // the return value into JSON if there is one.
 func (s *Server) invoke(base context.Context, h Handler, req *Request) (json.RawMessage, error) {
 	ctx := context.WithValue(base, serverKey{}, s)
+	vhook.Point("srv.invoke.acquire", s, req)
 	if err := s.sem.Acquire(ctx, 1); err != nil {
+		vhook.Event("srv.acquire.fail", s, req)
 		return nil, err
 	}
 	defer s.sem.Release(1)
+	vhook.Event("srv.hstart", s, req)
 
 	s.rpcLog.LogRequest(ctx, req)
 	v, err := h(ctx, req)
+	vhook.Event("srv.hexit", s, req, err)
 	if err != nil {
 		if req.IsNotification() {
 			s.log("Discarding error from notification to %q: %v", req.Method(), err)
@@ -465,6 +480,7 @@ func (s *Server) Callback(ctx context.Context, method string, params any) (*Resp
 // response, deliver an error to the caller.
 func (s *Server) waitCallback(pctx context.Context, id string, p *Response) {
 	<-pctx.Done()
+	vhook.Point("srv.waitcb.lock", s, id)
 	s.mu.Lock()
 	defer s.mu.Unlock()
 	if _, ok := s.call[id]; !ok {
@@ -472,6 +488,7 @@ func (s *Server) waitCallback(pctx context.Context, id string, p *Response) {
 	}
 	delete(s.call, id)
 	err := pctx.Err()
+	vhook.Event("srv.cbtimeout", s, id)
 	s.log("Context ended for callback id %q, err=%v", id, err)
 
 	p.ch <- &jmessage{
@@ -489,6 +506,7 @@ func (s *Server) pushReq(ctx context.Context, wantID bool, method string, params
 		}
 		bits = v
 	}
+	vhook.Point("srv.push.lock", s, wantID, method)
 	s.mu.Lock()
 	defer s.mu.Unlock()
 	if s.ch == nil {
@@ -517,6 +535,7 @@ func (s *Server) pushReq(ctx context.Context, wantID bool, method string, params
 	}
 
 	s.log("Posting server %s %q %s", kind, method, string(bits))
+	vhook.Event("srv.push", s, string(jid), method)
 	nw, err := encode(s.ch, jmessages{{
 		ID: jid,
 		M:  method,
@@ -530,6 +549,7 @@ func (s *Server) pushReq(ctx context.Context, wantID bool, method string, params
 // is safe to call this method multiple times or from concurrent goroutines; it
 // will only take effect once.
 func (s *Server) Stop() {
+	vhook.Point("srv.stop.lock", s)
 	s.mu.Lock()
 	defer s.mu.Unlock()
 	s.stopLocked(errServerStopped)
@@ -558,6 +578,7 @@ func (s ServerStatus) Success() bool { return s.Err == nil }
 // safe to call s.Start again to restart the server with a fresh channel.
 func (s *Server) WaitStatus() ServerStatus {
 	s.wg.Wait()
+	vhook.Event("srv.waitstatus", s)
 	// Postcondition check.
 	if !s.inq.IsEmpty() {
 		panic("s.inq is not empty at shutdown")
@@ -627,6 +648,7 @@ func (s *Server) stopLocked(err error) {
 	s.err = err
 	s.ch = nil
 	serversActiveGauge.Add(-1)
+	vhook.Event("srv.stop", s, err, len(keep))
 }
 
 // read is the main receiver loop, decoding requests from the client and adding
@@ -646,7 +668,9 @@ func (s *Server) read(ch receiver) {
 			derr = in.parseJSON(bits)
 			rpcRequestsCount.Add(int64(len(in)))
 		}
+		vhook.Point("srv.read.lock", s, bits, err)
 		s.mu.Lock()
+		vhook.Event("srv.recv", s, len(in), err, derr)
 		if err != nil { // receive failure; shut down
 			s.stopLocked(err)
 			s.mu.Unlock()
@@ -665,6 +689,7 @@ func (s *Server) read(ch receiver) {
 			if len(keep) != 0 {
 				s.log("Received request batch of size %d (qlen=%d)", len(keep), s.inq.Len())
 				s.inq.Add(keep)
+				vhook.Event("srv.enqueue", s, len(keep), s.inq.Len())
 				if s.inq.Len() == 1 { // the queue was empty
 					s.signal()
 				}
@@ -698,10 +723,12 @@ func (s *Server) filterBatchLocked(next jmessages) jmessages {
 			delete(s.call, id)
 			rsp.ch <- req
 			s.log("Received response for callback %q", id)
+			vhook.Event("srv.cbreply", s, id)
 		} else if s.allowP && req.M == "" && (req.E != nil || req.R != nil) {
 			// A late, duplicate or unsolicited reply. Answering it with an error
 			// would reuse an ID from the client's own ID space.
 			s.log("Discarding response for unknown callback %q", id)
+			vhook.Event("srv.cbdrop", s, id)
 		} else {
 			keep = append(keep, req)
 		}
@@ -755,6 +782,7 @@ func (s *Server) pushErrorLocked(err error) {
 	}})
 	rpcErrorsCount.Add(1)
 	bytesWrittenCount.Add(int64(nw))
+	vhook.Event("srv.direrr", s, jerr.Code)
 	if err != nil {
 		s.log("Writing error response: %v", err)
 	}
@@ -847,6 +875,7 @@ func (ts tasks) numToDo() (todo, notes int) {
 // CancelRequest instructs s to cancel the pending or in-flight request with
 // the specified ID. If no request exists with that ID, this is a no-op.
 func (s *Server) CancelRequest(id string) {
+	vhook.Point("srv.cancel.lock", s, id)
 	s.mu.Lock()
 	defer s.mu.Unlock()
 	if cancel, ok := s.used[id]; ok {
@@ -854,5 +883,6 @@ func (s *Server) CancelRequest(id string) {
 		// reply has been delivered; deliver releases it.
 		cancel()
 		s.log("Cancelled request %s by client order", id)
+		vhook.Event("srv.cancel", s, id)
 	}
 }
